@@ -685,7 +685,7 @@ def _eval_batch(batch):
                 p.cls = lib.load_class_from_text(text)
                 p.executor = Executor().set_executed_class(class_object=p.cls)
                 pipes[it['id']] = (p, None)
-        seen_exec = set()
+        seen_exec, broken = set(), {}
         grid = dict(base_grid)
         for step in range(len(steps) + 1):
             if step:
@@ -701,14 +701,31 @@ def _eval_batch(batch):
                     key = (id(p.executor), step)
                     if key not in seen_exec:
                         seen_exec.add(key)
-                        p.executor.set_cells([Cell(s, c - 1, r - 1, _dec_override(p, v)) for s, c, r, v in steps[step - 1]])
+                        r = lib.call_catch(p.executor.set_cells,
+                                           [Cell(s, c - 1, r - 1, _dec_override(p, v)) for s, c, r, v in steps[step - 1]])
+                        if isinstance(r, codec.Raised):
+                            broken[id(p.executor)] = r
                 s, c, r = it['at']
-                got = lib.call_catch(p.executor.get_cell, Cell(s, c - 1, r - 1))
+                got = broken.get(id(p.executor)) or lib.call_catch(p.executor.get_cell, Cell(s, c - 1, r - 1))
                 got = got if isinstance(got, codec.Raised) else got.value
                 if isinstance(got, p.cls.EmptyCell):
                     got = 0
                 _judge(batch, it, grid, got, step, out)
     return out
+
+
+def _safe_eval_batch(batch):
+    """a crash of the harness or of the library outside the guarded calls is a finding, not the end of the run"""
+    try:
+        return _eval_batch(batch)
+    except BaseException as e:  # noqa
+        import traceback
+        where = traceback.extract_tb(e.__traceback__)[-1]
+        return {'evals': len(batch['items']), 'nontrivial': 0, 'skipped': 0, 'samples': [],
+                'fails': [{'key': f'C12.unguarded_exception.{type(e).__name__}', 'func': '', 'item': batch['items'][0]['id'] if batch['items'] else 0,
+                           'step': len(batch.get('steps') or []),
+                           'what': f'{type(e).__name__}: {str(e)[:200]} at {where.filename}:{where.lineno} while evaluating a batch of '
+                                   f"{len(batch['items'])} formulas"}]}
 
 
 def _place(items, home, c0, rows):
@@ -727,10 +744,10 @@ def _run_batches(batches):
     if not batches:
         return []
     if len(batches) == 1:
-        return [_eval_batch(batches[0])]
+        return [_safe_eval_batch(batches[0])]
     ctx = multiprocessing.get_context('fork')
     with ctx.Pool(min(NPROC, len(batches))) as pool:
-        return pool.map(_eval_batch, batches, chunksize=1)
+        return pool.map(_safe_eval_batch, batches, chunksize=1)
 
 
 def _referenced(batch, it):
@@ -770,7 +787,7 @@ def _minimal_payload(batch, fail):
     candidates.append({'sheets': batch['sheets'], 'items': batch['items'], 'mode': batch.get('mode', 'whole'), 'steps': steps,
                        'only': it['id']})
     for cand in candidates:
-        r = _eval_batch(cand)
+        r = _safe_eval_batch(cand)
         if any(f['item'] == it['id'] and f['key'] == fail['key'] for f in r['fails']):
             return {'kind': 'batch', 'batch': cand, 'key': fail['key']}
     return {'kind': 'batch', 'batch': candidates[-1], 'key': fail['key']}
@@ -1020,8 +1037,10 @@ def fold_key(func, combo, tcol):
         return 'C12.fold.wildcard_beside_another_string_literal'
     if func == 'AVERAGEIFS' and tcol == 7:
         return 'C12.fold.AVERAGEIFS.non_number_in_unselected_target'
-    tags = sorted({f"{_crit_tag(c)}@{COLNAME[off]}" for off, c in combo})
-    return f"C12.fold.{func}.{'+'.join(tags)}"
+    if len(combo) > 1:                                   # criterion forms have their own checks: here the pairing / fold is at stake
+        return f"C12.fold.{func}.{len(combo)}_pairs"
+    off, c = combo[0]
+    return f"C12.fold.{func}.1_pair.{_crit_tag(c)}@{COLNAME[off]}"
 
 
 def _fold_item(func, combo, tcol, r0, r1, col0=1, s=None, home=0, sep=',', sp=False, absolute=False):
@@ -1521,7 +1540,7 @@ def run(tier='quick', seed=0):
 def replay(payload):
     k = (payload or {}).get('kind')
     if k == 'batch':
-        r = _eval_batch(payload['batch'])
+        r = _safe_eval_batch(payload['batch'])
         only = payload['batch'].get('only')
         fails = [f for f in r['fails'] if only is None or f['item'] == only]
         if fails:
